@@ -371,6 +371,16 @@ func (x *run) stepWipe(rs *repState, s *sim.Step) error {
 	_ = r.CloseClean()
 	rs.alive = false
 	rs.staged = map[string]bool{}
+	foreign := map[string]string{}
+	if raw0, err := openRaw(r.Dir); err == nil {
+		t, _ := sim.RefTable(raw0, "refs/")
+		for k, v := range t {
+			if !isGitBugRef(k) {
+				foreign[k] = v
+			}
+		}
+		_ = raw0.Close()
+	}
 	_, err := sim.RunCLI(x.w, r, "wipe")
 	x.probe("wipe")
 	if err != nil {
@@ -384,6 +394,12 @@ func (x *run) stepWipe(rs *repState, s *sim.Step) error {
 		return err
 	}
 	defer raw.Close()
+	after, _ := sim.RefTable(raw, "refs/")
+	for k, v := range foreign {
+		if after[k] != v {
+			x.violate("frame-broken", "wipe on %s touched a ref that is not git-bug's: %s went from %s to %q", r.Name, k, v, after[k])
+		}
+	}
 	refs, _ := raw.ListRefs("refs/")
 	for _, ref := range refs {
 		if strings.HasPrefix(ref, "refs/bugs/") || strings.HasPrefix(ref, "refs/identities/") ||
